@@ -8,7 +8,7 @@
    [fanout s] = the values for which a Broadcast call took the lock on an open broadcaster, in
    that order (ghost).  A Broadcast value identifies its call. *)
 From Kit Require Import C11.Model C11.Spec C11.Check C11.Proofs_safety C11.Proofs_live
-                        C11.Proofs_spec C11.Proofs_check.
+                        C11.Proofs_spec C11.Proofs_check C11.Proofs_rest.
 
 (* ONE COMMON ORDER.  In every reachable state [fanout s] has no repetition and, for every
    subscriber, what its consumer has received followed by what is on its way to it (held by its
@@ -204,3 +204,63 @@ Theorem C11_dup_oracle_sound : forall k nb leave shared other,
   dup_oracle k nb leave shared other = true <-> dup_spec k nb leave shared other.
 Proof. exact dup_oracle_sound. Qed.
 Print Assumptions C11_dup_oracle_sound.
+
+(* EVERY CALL RETURNS BY ITSELF (both variants; the liveness half of "never deadlock Broadcast,
+   Subscribe or Close").  From EVERY reachable state, at most [measure s] internal steps, each
+   enabled when taken — this is the checker's run-to-quiescence — lead to a state at rest, and
+   there a call (a Broadcast holding or waiting for the lock, a Subscribe, either Close) is still
+   pending only under back-pressure from a LIVE stalled subscriber. *)
+Theorem C11_calls_complete : forall vr es s, run vr init es = Some s ->
+  exists es', Forall (fun e => internal e = true) es' /\ (length es' <= Model.measure s)%nat /\
+              run vr s es' = Some (quiesce vr s) /\ stuck vr (quiesce vr s) /\
+              (call_pending (quiesce vr s) -> backpressure (quiesce vr s)).
+Proof. exact main_calls_complete. Qed.
+Print Assumptions C11_calls_complete.
+
+(* EXACTLY ONCE, EVENTUALLY (the liveness half of "received exactly once by each subscriber that
+   ... stays subscribed while the broadcaster is open").  At that state at rest, unless there is
+   such back-pressure, every subscriber whose context is alive, with the broadcaster open and a
+   consumer that reads promptly, HAS received exactly the values fanned out since it subscribed,
+   in order — no hypothesis on the lock or on the schedule that led there. *)
+Theorem C11_delivery_complete : forall vr es s, run vr init es = Some s ->
+  ~ backpressure (quiesce vr s) ->
+  forall i b, nth_error (subs (quiesce vr s)) i = Some b ->
+    ctx_done b = false -> closed (quiesce vr s) = false -> prompt b = true ->
+    received b = skipn (start b) (fanout (quiesce vr s)).
+Proof. exact main_delivery_complete. Qed.
+Print Assumptions C11_delivery_complete.
+
+(* WHY 12 ("more than the 10-slot buffer outstanding").  Whenever a Broadcast sits at a subscriber
+   that is alive, on an open broadcaster, with a full buffer and a value in its forwarder's hand
+   — the only situation in which it can be blocked (C11_departure_no_wedge) — that subscriber has
+   EXACTLY 12 values outstanding: the constant of the specification's back-pressure excuse
+   (Spec.excused) is derived from the model, not chosen. *)
+Theorem C11_backpressure_12 : forall vr es s v idx b h, run vr init es = Some s ->
+  lock s = Held v idx -> nth_error (subs s) idx = Some b ->
+  ctx_done b = false -> closed s = false ->
+  length (buf b) = bufcap -> fwd b = Holding h ->
+  length (skipn (start b) (fanout s)) = (length (received b) + 12)%nat.
+Proof. exact main_backpressure_12. Qed.
+Print Assumptions C11_backpressure_12.
+
+(* The executable form of the two theorems above ([rest_ok], Check.v) holds of the state at rest
+   reached from every reachable state ... *)
+Theorem C11_rest_ok : forall vr es s, run vr init es = Some s -> rest_ok (quiesce vr s) = true.
+Proof. exact main_rest_ok. Qed.
+Print Assumptions C11_rest_ok.
+
+(* ... and the booleans it is made of decide the predicates of the theorems. *)
+Theorem C11_rest_predicates_decided : forall s,
+  (call_pendingb s = true <-> call_pending s) /\ (backpressureb s = true <-> backpressure s) /\
+  (delivered_allb s = true <->
+   forall i b, nth_error (subs s) i = Some b -> ctx_done b = false -> closed s = false ->
+               prompt b = true -> received b = skipn (start b) (fanout s)).
+Proof. exact (fun s => conj (call_pendingb_spec s) (conj (backpressureb_spec s) (delivered_allb_spec s))). Qed.
+Print Assumptions C11_rest_predicates_decided.
+
+(* Hence, for EVERY script, every state the checker predicts at a step boundary passes [rest_ok]:
+   the flag [d_rest] that check_case tests on each harness case can never be false for a reason
+   other than a broken model. *)
+Theorem C11_drive_rest_ok : forall vr sc, d_rest (drive vr sc) = true.
+Proof. exact main_drive_rest_ok. Qed.
+Print Assumptions C11_drive_rest_ok.
